@@ -165,4 +165,4 @@ def run(rep, tier, seed, replay=None):
         return
     for i in range(n):
         one_case(rep, cs, seed, i)
-    cs.run(shard=max(4, n // 14))
+    cs.run(shard=max(4, 70 // 14))  # shard size of the quick tier: thorough runs use more files, not longer ones
